@@ -349,6 +349,13 @@ class ADWIN(StreamingDetector):
         curr_bucket_row.remove_buckets(1)
         if curr_bucket_row.bucket_count == 0:
             self._bucket_row_list.remove_tail()
+            # with max_buckets == 1, compression leaves empty rows between
+            # the head and the tail; an empty row must not become the tail
+            while (
+                self._bucket_row_list.size > 1
+                and self._bucket_row_list.tail.bucket_count == 0
+            ):
+                self._bucket_row_list.remove_tail()
         return n_curr
 
     def mean(self):
